@@ -403,6 +403,8 @@ def _run_unit(spec: Spec, repo: Repo | None = None, timeout_s=20.0, want_smt2=Fa
                 from .solve import build_query as _bq
 
                 pre = [ob for ob in cx.obls if ob.kind in ("pre", "index", "shape", "div")]
+                if cx.ghost.get("history_phase"):
+                    pre = []  # the construct was met while a contract replayed an EARLIER call, whose obligations are not this unit's
                 if pre:
                     can = _Ob("canary", z3.BoolVal(False), tuple(cx.pc), cx.loc, "canary", tuple(cx.univ))
                     hy, _g = _bq(can, V.AXIOMS)
